@@ -236,7 +236,7 @@ def go_package_name(pkg):
     raise RuntimeError("no package clause in " + d)
 
 
-def native_replay(pkg, items, scratch, attempts=1, timeout=600, gomaxprocs1=False):
+def native_replay(pkg, items, scratch, attempts=1, timeout=600, gomaxprocs1=False, race=False):
     """items: list of (entry, replay_path). Returns {replay_path: result string}."""
     ov = {}
     for root, _, files in os.walk(HARNESS):
@@ -258,8 +258,13 @@ def native_replay(pkg, items, scratch, attempts=1, timeout=600, gomaxprocs1=Fals
     with open(ovpath, "w") as f:
         json.dump({"Replace": ov}, f)
     env = dict(GOENV, GOCACHE=os.environ.get("GOCACHE", os.path.join(os.path.expanduser("~"), ".cache", "go-build")))
-    binpath = os.path.join(scratch, "replay-%d.test" % (abs(hash(pkg)) % 100000))
-    cmd = ["go", "test", "-c", "-o", binpath, "-tags", "verif", "-vet=off", "-overlay", ovpath, "./" + pkg.lstrip("./")]
+    binpath = os.path.join(scratch, "replay-%d%s.test" % (abs(hash(pkg)) % 100000, "-race" if race else ""))
+    cmd = ["go", "test", "-c", "-o", binpath, "-tags", "verif", "-vet=off", "-overlay", ovpath]
+    if race:
+        # the Go race detector; checkptr (switched on by -race) rejects the SIMD wrappers' length-as-pointer idiom
+        cmd += ["-race", "-gcflags=all=-d=checkptr=0"]
+        env["GORACE"] = "halt_on_error=1"
+    cmd += ["./" + pkg.lstrip("./")]
     p = subprocess.run(cmd, cwd=REPO, env=env, stdout=subprocess.PIPE, stderr=subprocess.STDOUT, text=True)
     res = {}
     outall = p.stdout
@@ -293,10 +298,14 @@ def native_replay(pkg, items, scratch, attempts=1, timeout=600, gomaxprocs1=Fals
             except subprocess.TimeoutExpired as ex:
                 out = (ex.stdout or b"").decode("utf-8", "replace") if isinstance(ex.stdout, bytes) else (ex.stdout or "")
                 res[path] = "TIMEOUT"
+            if race and "WARNING: DATA RACE" in out:
+                lines_ = [l.strip() for l in out.splitlines() if REPO in l and "zz_verif" not in l]
+                res[path] = "RACE " + " | ".join(dict.fromkeys(os.path.relpath(l.split(" ")[0], REPO) for l in lines_[:12]))
+                break
             if " PASSED" not in out:
                 break
-        got = False
-        for line in out.splitlines():
+        got = res.get(path, "").startswith("RACE")
+        for line in ([] if got else out.splitlines()):
             if line.startswith("VERIF-REPLAY "):
                 _, rp, rest = line.split(" ", 2)
                 res[rp] = rest
@@ -454,10 +463,11 @@ def run_property(pid, tier, seed, cfg, scratch, t0):
                     continue
                 n_native += 1
                 labels_replayed[v["label"]] = labels_replayed.get(v["label"], 0) + 1
-                per_pkg.setdefault(run["pkg"], []).append((run["entry"], path))
+                per_pkg.setdefault((run["pkg"], v["kind"] == "race"), []).append((run["entry"], path))
     replay_log = ""
-    for pkg, items in per_pkg.items():
-        res, out = native_replay(pkg, items, scratch, attempts=attempts_cfg, timeout=cfg.get("replay_timeout", 600), gomaxprocs1=cfg.get("gomaxprocs1", False))
+    for (pkg, is_race), items in per_pkg.items():
+        res, out = native_replay(pkg, items, scratch, attempts=cfg.get("race_replay_attempts", 3000) if is_race else attempts_cfg,
+                                 timeout=cfg.get("replay_timeout", 600), gomaxprocs1=cfg.get("gomaxprocs1", False), race=is_race)
         replay_results.update(res)
         replay_log += out[-2000:]
     # translator validation: model vectors of sampled violation-free paths are run
@@ -508,6 +518,10 @@ def run_property(pid, tier, seed, cfg, scratch, t0):
                 ok = r.startswith("PANIC") or r.startswith("FAILED") or r.startswith("CRASH")
             elif v["kind"] == "deadlock":
                 ok = not r.startswith("PASSED")
+            elif v["kind"] == "race":
+                # the Go race detector must report a race that involves one of the two source lines
+                locs = re.findall(r"@([\w./-]+:\d+)", v.get("detail") or "")
+                ok = r.startswith("RACE") and any(loc.split("/")[-1] in r for loc in locs)
             if ok:
                 n_reproduced += 1
                 confirmed.setdefault(sig, (path, r))
